@@ -37,7 +37,21 @@ func (c07Prop) Gen(seed uint64, tier string, i int) Case {
 	g := &GenCfg{Avoid: mergeAvoid("at-start-end"), MaxDepth: 3, W: c.Window, Lookback: c.Engine.LookbackMs}
 	c.Dataset = GenDataset(r.Fork(), c.Window, c.Engine.LookbackMs, 24, false, r.P(0.2))
 	c.Query = GenQuery(r.Fork(), g)
-	if r.P(0.1) {
+	if r.P(0.2) {
+		// a lookback delta given with the query: the range query and the instant queries take it on
+		// different entry points
+		c.Engine.QueryLookbackMs = Pick(r, []int64{1000, 30_000, 60_000, 120_000, 420_001})
+		if r.P(0.3) {
+			c.Engine.QueryLookbackMs, c.Engine.EmptyQueryOpts = 0, true
+		}
+	}
+	if r.P(0.04) {
+		// the quantile of histogram_quantile changes from step to step
+		AddHistogramTwins(r, &c.Dataset, c.Window, c.Engine.LookbackMs)
+		c.Dataset.Normalize()
+		c.Query = Pick(r, []string{`histogram_quantile((time() % 100) / 100, g_bucket)`, `histogram_quantile(scalar(sum(m1)) / 1000, rate(g_bucket[2m]))`,
+			`histogram_quantile((time() % 7) / 7, g_bucket)`, `histogram_quantile(scalar(count(m0)) / 10, sum by (le) (g_bucket))`})
+	} else if r.P(0.1) {
 		// two series that differ in the metric name only and hand over inside the window, under
 		// something that drops the name: one output series whose points come from both, whatever the
 		// position of the hand-over inside the engine's batches
@@ -873,6 +887,14 @@ func (c16Prop) Gen(seed uint64, tier string, i int) Case {
 	c.Engine.Opt = Pick(r, []string{"none", "none", "default", "all", "merge", "prop"})
 	g := &GenCfg{Avoid: mergeAvoid(), MaxDepth: 3, W: c.Window, Lookback: c.Engine.LookbackMs}
 	c.Dataset = GenDataset(r.Fork(), c.Window, c.Engine.LookbackMs, 16, false, r.P(0.2))
+	if r.P(0.25) {
+		// a lookback delta given for this query only (instant and range queries take it on different
+		// entry points), or options without one
+		c.Engine.QueryLookbackMs = Pick(r, []int64{1000, 30_000, 60_000, 120_000, 420_001})
+		if r.P(0.3) {
+			c.Engine.QueryLookbackMs, c.Engine.EmptyQueryOpts = 0, true
+		}
+	}
 	if r.P(0.6) {
 		q := &qgen{r: r.Fork(), g: g}
 		sh := Pick(r, c16Shapes)
